@@ -459,5 +459,98 @@ theorem awaitGap_admit (c : Ctx) (now : Int) (addr : Nat) (rx' : Bytes) (t : Tel
       · cases hr
     · cases hr
 
+/-! ## Idle states: token-lost time-out, telegram callbacks never transmit -/
+
+/-- The token-lost time-out `Tsl · (6 + 2·TS)` of bus silence has elapsed. -/
+def TokenLost (s : Station) (now : Int) : Prop :=
+  (now - s.lastBusActivity.getD now).natAbs ≥ s.p.tokenLostTimeout
+
+instance (s : Station) (now : Int) : Decidable (TokenLost s now) := by unfold TokenLost; infer_instance
+
+theorem handleLostToken_none (c : Ctx) (now : Int) (h : ¬ TokenLost c.s now) :
+    handleLostToken c now = ({ c with s := stamped c.s now }, none) := by
+  unfold handleLostToken
+  simp only [getOrInsert_eq]
+  unfold TokenLost at h
+  rw [if_neg h]
+  rfl
+
+theorem handleLostToken_lost (c : Ctx) (now : Int) (h : TokenLost c.s now) :
+    handleLostToken c now =
+      ({ c with s := stamped c.s now },
+       some (match toClaimToken (stamped c.s now) with
+             | none => .panic "transition_claim_token"
+             | some s'' => doClaimToken { c with s := s'' } now 2)) := by
+  unfold handleLostToken
+  simp only [getOrInsert_eq]
+  unfold TokenLost at h
+  rw [if_pos h]
+  cases hc : toClaimToken { c.s with lastBusActivity := some (c.s.lastBusActivity.getD now) } with
+  | none => simp [stamped, hc]
+  | some s'' => simp [stamped, hc]
+
+/-- The state a listening station reports to requester `src`: "ready" only when its LAS is valid
+(two identical token rotations seen) AND the requester is its registered predecessor. -/
+def listenReport (s : Station) (src : Nat) : ResponseState :=
+  if s.ring.readyForRing = true ∧ src = s.ring.ps then .masterWithoutToken else .masterNotReady
+
+theorem syncOver_stamped (s : Station) (now : Int) : SyncOver (stamped s now) now ↔ SyncOver s now := by
+  simp [syncOver_iff, stamped]
+
+theorem stamped_stamped (s : Station) (now : Int) : stamped (stamped s now) now = stamped s now := by
+  simp [stamped]
+
+/-- The per-telegram callback of `do_listen_token` never transmits. -/
+theorem listenTelegramCore_tx (c c' : Ctx) (t : Telegram) (l : Bool) (h : listenTelegramCore c t l = .ok c') :
+    c'.tx = c.tx := by
+  unfold listenTelegramCore at h
+  split at h
+  · cases h; rfl
+  · split at h
+    · simp only at h
+      split at h
+      · split at h <;> (have h' := Res.ok.inj h; rw [← h']; simp only [upd])
+      · cases t with
+        | sc => cases h; rfl
+        | token da sa => cases h; rfl
+        | data hd pdu =>
+          simp only at h
+          split at h
+          · split at h <;> (cases h; rfl)
+          · cases h; rfl
+    · cases h
+
+theorem listenTelegram_tx (now : Int) (c c' : Ctx) (t : Telegram) (l : Bool) (h : listenTelegram now c t l = .ok c') :
+    c'.tx = c.tx := by
+  unfold listenTelegram at h
+  exact listenTelegramCore_tx (upd c fun s => markRx s now) c' t l h
+
+/-- `handle_telegram` never transmits. -/
+theorem handleTelegram_tx (c c' : Ctx) (now : Int) (t : Telegram) (l : Bool) (h : handleTelegram c now t l = .ok c') :
+    c'.tx = c.tx := by
+  unfold handleTelegram at h
+  simp only [tr] at h
+  repeat' split at h
+  all_goals first
+    | (cases h; done)
+    | (cases h; rfl)
+
+theorem foldTelegrams_tx (f : Ctx → Telegram → Bool → Res)
+    (hf : ∀ c c' t l, f c t l = .ok c' → c'.tx = c.tx) :
+    ∀ (calls : List (Telegram × Bool)) (c c' : Ctx), foldTelegrams f c calls = .ok c' → c'.tx = c.tx := by
+  intro calls
+  induction calls with
+  | nil => intro c c' h; simp only [foldTelegrams] at h; cases h; rfl
+  | cons tl rest ih =>
+    intro c c' h
+    obtain ⟨t, l⟩ := tl
+    simp only [foldTelegrams] at h
+    cases h1 : f c t l with
+    | panic m => rw [h1] at h; cases h
+    | ok c1 =>
+      rw [h1] at h
+      simp only [Res.bind] at h
+      rw [ih c1 c' h, hf c c1 t l h1]
+
 end StationGap
 end PV
